@@ -23,15 +23,15 @@ type SorterScenario struct {
 	Rem []string `json:"rem"`
 }
 
-var sorterHeader = []string{"f0", "ka", "f1", "kb", "v"}
+var sorterHeader = []string{"f0", "ka", "f1", "kb", "t", "v"}
 
 func sorterRow(r [3]int) []string {
 	c := concrete(r)
-	return []string{"F", c[0], "G", c[1], c[2]}
+	return []string{"F", c[0], "G", c[1], c[2], c[3]}
 }
 func sorterPad(i int) []string {
 	p := padRow(i)
-	return []string{"F", p[0], "G", p[1], p[2]}
+	return []string{"F", p[0], "G", p[1], p[2], p[3]}
 }
 
 func dropCols(row []string, removed map[int]struct{}) []string {
